@@ -28,6 +28,10 @@ func (fx *FnCtx) invokeCall(st *State, pc *Term, site ssa.Instruction, call *ssa
 		fx.fail("interface method call %s.%s has no contract", call.Value.Type(), call.Method.Name())
 	}
 	recv := fx.val(call.Value)
+	if n := call.Method.Name(); n == "Read" || n == "ReadByte" || n == "ReadAt" {
+		// a direct read from a reader is not part of the recorded stream (see StreamRead)
+		fx.root.streamBad = true
+	}
 	fx.safety("nil", pc, Not(Eq(recv.L[0], fx.tc.IdxNum(0))), "method call on nil interface")
 	args := []Value{recv}
 	for _, a := range call.Args {
